@@ -18,9 +18,13 @@
    `noinit` skips the sexp_scheme_init() call that the documented embedding protocol (doc/chibi.scrbl, main())
    performs once before any context exists; used only to probe the first-use race of the init flags.
 
+           embed_c13 ops   <script> <capture prefix>   scripted multi-context run (round 2), see "ops" below
+
    probe mode prints one line per probe:  P <name> ok|FAIL <detail>
    The probes never compare addresses across runs; they compare addresses of two live contexts inside one run. */
 #include <chibi/eval.h>
+#include <dirent.h>
+#include <fcntl.h>
 #include <pthread.h>
 #include <signal.h>
 #include <stdio.h>
@@ -407,12 +411,206 @@ static int probes (void) {
   return 0;
 }
 
+
+/* ------------------------------------------------------------------ ops: scripted multi-context runs (round 2)
+
+   One script line = one operation on a named context slot; TAB separated:
+     new <slot> <mode> <heapsize>   parent-less context + standard environment; mode =
+                                      plain  no standard ports
+                                      std1   sexp_load_standard_ports(ctx, NULL, stdin, stdout, stderr, 1)  -- doc/chibi.scrbl
+                                      dup0   ... (ctx, NULL, fdopen(dup(0)), fdopen(dup(1)), fdopen(dup(2)), 0): private streams the context owns
+     child <slot> <parent slot>     sexp_make_child_context(parent, NULL)   (shares the parent's heap)
+     eval <slot> <scheme text>      every top-level form; reports the canonical text of the last value / first exception
+     gc <slot> | audit <slot> | destroy <slot>
+     fds                            the descriptor table of the process (/proc/self/fd)
+     maps                           the shared objects of the build that are mapped (/proc/self/maps)
+   Descriptors 1 and 2 of the process are redirected to <prefix>.out / <prefix>.err before the first context
+   exists (the FILE objects stdout / stderr themselves are untouched); the report goes to the original stdout:
+     O <line no> <op> <slot> <text>
+     C <line no> out|err <bytes that arrived in the capture file during this operation, escaped>
+   so that "context B can still write to its (current-error-port) after A was destroyed" is judged by the bytes
+   that reached descriptor 2, not by what the write returned. */
+
+#define MAXS 64
+static sexp slots[MAXS];
+static char slot_name[MAXS][32];
+static FILE *report;
+
+static int slot_of (const char *name, int create) {
+  int i;
+  for (i = 0; i < MAXS; i++) if (slot_name[i][0] && strcmp(slot_name[i], name) == 0) return i;
+  if (!create) return -1;
+  for (i = 0; i < MAXS; i++) if (!slot_name[i][0]) { snprintf(slot_name[i], sizeof(slot_name[i]), "%s", name); return i; }
+  return -1;
+}
+
+static void report_fds (int lineno) {
+  DIR *d = opendir("/proc/self/fd");
+  struct dirent *e;
+  int fds[1024], n = 0, i, j, t;
+  char path[64], target[300];
+  if (!d) { fprintf(report, "O\t%d\tfds\t-\tERR:no-proc\n", lineno); return; }
+  while ((e = readdir(d)) && n < 1024) {
+    if (e->d_name[0] == '.') continue;
+    if (atoi(e->d_name) == dirfd(d)) continue;
+    fds[n++] = atoi(e->d_name);
+  }
+  closedir(d);
+  for (i = 0; i < n; i++) for (j = i + 1; j < n; j++) if (fds[j] < fds[i]) { t = fds[i]; fds[i] = fds[j]; fds[j] = t; }
+  fprintf(report, "O\t%d\tfds\t-\t", lineno);
+  for (i = 0; i < n; i++) {
+    ssize_t k;
+    snprintf(path, sizeof(path), "/proc/self/fd/%d", fds[i]);
+    k = readlink(path, target, sizeof(target) - 1);
+    if (k < 0) continue;
+    target[k] = 0;
+    fprintf(report, "%s%d>%s", i ? " " : "", fds[i], target);
+  }
+  fprintf(report, "\n");
+}
+
+static void report_maps (int lineno) {
+  FILE *f = fopen("/proc/self/maps", "r");
+  char line[1024], seen[256][200];
+  int n = 0, i;
+  fprintf(report, "O\t%d\tmaps\t-\t", lineno);
+  if (f) {
+    while (fgets(line, sizeof(line), f)) {
+      const char *root = getenv("CHIBI_MODULE_PATH");
+      char *p = root ? strstr(line, root) : NULL, *q;
+      if (!p || !strstr(line, ".so")) continue;
+      p += strlen(root);
+      q = p + strlen(p);
+      while (q > p && (q[-1] == '\n' || q[-1] == ' ')) *--q = 0;
+      q = strstr(p, " (deleted)");
+      if (q) *q = 0;
+      for (i = 0; i < n; i++) if (strcmp(seen[i], p + 1) == 0) break;
+      if (i == n && n < 256) snprintf(seen[n++], sizeof(seen[0]), "%s", p + 1);
+    }
+    fclose(f);
+  }
+  for (i = 0; i < n; i++) fprintf(report, "%s%s", i ? " " : "", seen[i]);
+  fprintf(report, "\n");
+}
+
+static off_t cap_pos[2];
+static int cap_fd[2];
+
+static void report_captured (int lineno) {
+  static const char *nm[2] = {"out", "err"};
+  char buf[2048];
+  int k;
+  for (k = 0; k < 2; k++) {
+    ssize_t n = pread(cap_fd[k], buf, sizeof(buf), cap_pos[k]);
+    ssize_t i;
+    if (n <= 0) continue;
+    cap_pos[k] += n;
+    fprintf(report, "C\t%d\t%s\t", lineno, nm[k]);
+    for (i = 0; i < n; i++) {
+      unsigned char c = (unsigned char)buf[i];
+      if (c == '\n') fputs("\\n", report);
+      else if (c == '\t') fputs("\\t", report);
+      else if (c == '\\') fputs("\\\\", report);
+      else if (c < 32 || c > 126) fprintf(report, "\\x%02x", c);
+      else fputc(c, report);
+    }
+    fputc('\n', report);
+  }
+}
+
+static int run_ops (const char *script, const char *prefix) {
+  FILE *f = fopen(script, "r");
+  char *line = NULL, path[600];
+  size_t cap = 0;
+  ssize_t n;
+  int lineno = 0, k;
+  if (!f) { perror(script); return 2; }
+  report = fdopen(dup(1), "w");
+  for (k = 0; k < 2; k++) {
+    int fd;
+    snprintf(path, sizeof(path), "%s.%s", prefix, k ? "err" : "out");
+    fd = open(path, O_WRONLY | O_CREAT | O_TRUNC | O_APPEND, 0600);
+    cap_fd[k] = open(path, O_RDONLY);
+    if (fd < 0 || cap_fd[k] < 0) { perror(path); return 2; }
+    fflush(k ? stderr : stdout);
+    dup2(fd, k + 1);
+    close(fd);
+  }
+  while ((n = getline(&line, &cap, f)) > 0) {
+    char *op = line, *a1, *a2 = NULL, *a3 = NULL;
+    int s;
+    lineno++;
+    if (line[n-1] == '\n') line[--n] = 0;
+    if (!line[0] || line[0] == '#') continue;
+    a1 = strchr(op, '\t');
+    if (a1) { *a1++ = 0; a2 = strchr(a1, '\t'); }
+    if (a2) { *a2++ = 0; if (strcmp(op, "eval") != 0) { a3 = strchr(a2, '\t'); if (a3) *a3++ = 0; } }
+    if (strcmp(op, "fds") == 0) { report_fds(lineno); fflush(report); continue; }
+    if (strcmp(op, "maps") == 0) { report_maps(lineno); fflush(report); continue; }
+    if (!a1) { fprintf(report, "O\t%d\t%s\t-\tERR:bad-line\n", lineno, op); continue; }
+    if (strcmp(op, "new") == 0) {
+      sexp ctx;
+      s = slot_of(a1, 1);
+      ctx = s < 0 ? NULL : new_context(a3 ? atol(a3) : 0);
+      if (ctx && a2 && strcmp(a2, "std1") == 0)
+        sexp_load_standard_ports(ctx, NULL, stdin, stdout, stderr, 1);
+      else if (ctx && a2 && strcmp(a2, "dup0") == 0)
+        sexp_load_standard_ports(ctx, NULL, fdopen(dup(0), "r"), fdopen(dup(1), "w"), fdopen(dup(2), "w"), 0);
+      if (s >= 0) slots[s] = ctx;
+      fprintf(report, "O\t%d\tnew\t%s\t%s\n", lineno, a1, ctx ? "ok" : "ERR:no-context");
+    } else if (strcmp(op, "child") == 0) {
+      int ps = a2 ? slot_of(a2, 0) : -1;
+      s = slot_of(a1, 1);
+      if (s >= 0 && ps >= 0 && slots[ps]) {
+        slots[s] = sexp_make_child_context(slots[ps], NULL);
+        fprintf(report, "O\t%d\tchild\t%s\t%s\n", lineno, a1, (slots[s] && !sexp_exceptionp(slots[s])) ? "ok" : "ERR:no-context");
+      } else fprintf(report, "O\t%d\tchild\t%s\tERR:no-parent\n", lineno, a1);
+    } else {
+      s = slot_of(a1, 0);
+      if (s < 0 || !slots[s]) { fprintf(report, "O\t%d\t%s\t%s\tERR:no-such-context\n", lineno, op, a1); fflush(report); continue; }
+      if (strcmp(op, "eval") == 0) {
+        sexp ctx = slots[s];
+        char *txt;
+        sexp_gc_var1(r);
+        sexp_gc_preserve1(ctx, r);
+        r = eval_all(ctx, a2 ? a2 : "");
+        txt = show(ctx, r);
+        sexp_gc_release1(ctx);
+        fprintf(report, "O\t%d\teval\t%s\t%s\n", lineno, a1, txt);
+        free(txt);
+      } else if (strcmp(op, "gc") == 0) {
+        sexp_gc(slots[s], NULL);
+        fprintf(report, "O\t%d\tgc\t%s\tok\n", lineno, a1);
+      } else if (strcmp(op, "audit") == 0) {
+        char why[200];
+        sexp_gc(slots[s], NULL);
+        audit_heap(slots[s], why, sizeof(why));
+        fprintf(report, "O\t%d\taudit\t%s\t%s\n", lineno, a1, why);
+      } else if (strcmp(op, "destroy") == 0) {
+        sexp r = sexp_destroy_context(slots[s]);
+        slots[s] = NULL;
+        fprintf(report, "O\t%d\tdestroy\t%s\t%s\n", lineno, a1, r == SEXP_FALSE ? "ERR:destroy-returned-false" : "ok");
+      } else fprintf(report, "O\t%d\t%s\t%s\tERR:unknown-op\n", lineno, op, a1);
+    }
+    report_captured(lineno);
+    fflush(report);
+  }
+  fprintf(report, "O\t%d\tend\t-\tok\n", lineno + 1);
+  fflush(report);
+  return 0;
+}
+
 /* ------------------------------------------------------------------ main */
 
 int main (int argc, char **argv) {
   int i, j, noinit = argc > 3 && (strcmp(argv[3], "noinit") == 0 || strcmp(argv[3], "initrace") == 0);
   initrace = argc > 3 && strcmp(argv[3], "initrace") == 0;
-  if (argc < 3) { fprintf(stderr, "usage: embed_c13 run|probe <spec> [noinit]\n"); return 2; }
+  if (argc < 3) { fprintf(stderr, "usage: embed_c13 run|probe <spec> [noinit] | ops <script> <capture prefix>\n"); return 2; }
+  if (strcmp(argv[1], "ops") == 0) {
+    if (argc < 4) return 2;
+    sexp_scheme_init();
+    return run_ops(argv[2], argv[3]);
+  }
   if (!read_spec(argv[2])) return 2;
   if (!noinit) sexp_scheme_init();
   if (strcmp(argv[1], "probe") == 0) {
